@@ -1232,7 +1232,15 @@ func (l *Lowerer) buildOverrideInitExpr(expr parser.Expr) ir.OverrideInitExpr {
 				return ir.OverrideInitLiteral{Value: float64(ival)}
 			}
 		}
-		val, err := strconv.ParseFloat(e.Value, 64)
+		text := e.Value
+		if e.Kind == parser.TokenFloatLiteral && len(text) > 1 {
+			// strip the f / h type suffix (1.0f, 2h); a hex float only has one after its exponent
+			isHex := strings.HasPrefix(text, "0x") || strings.HasPrefix(text, "0X")
+			if last := text[len(text)-1]; (last == 'f' || last == 'h') && (!isHex || strings.ContainsAny(text, "pP")) {
+				text = text[:len(text)-1]
+			}
+		}
+		val, err := strconv.ParseFloat(text, 64)
 		if err != nil {
 			return nil
 		}
